@@ -312,7 +312,7 @@ class World:
                         e, cu = self.mk_event(act[1], parent=uid, by=hid)
                         self.events[cu]['fired_at'] = self.L('F', cu, uid, hid, act[1].get('prio', 0))
                         self.events[cu]['via'] = 'call'
-                        g = comp.call(e, **opts)
+                        g = comp.call(e, *act[1].get('channels', ()), **opts)
                         self.events[cu]['value'] = e.value
                         self.L('FR', cu)
                     else:
